@@ -8,7 +8,7 @@ RULE = ('well-formed messages: random subsets of the configured elements (every 
         '12 codecs x {binary, hex} bitmap x {packaged, generated configurations with PAN / PAN-PREFIX / PDS / ICC processors}; '
         'thorough adds every single element at many lengths; non-trivial = distinct message with at least one data element')
 CODEC_ALIASES = True     # one implementation run in three is given an alias spelling of the codec name (worker.for_impl)
-CALL_VARIANTS = True     # bytearray / memoryview messages and earlier failing calls around the harness's loads / dumps calls (worker.install_call_variants)
+CALL_VARIANTS = True     # bytearray messages, positional arguments and earlier failing calls around the harness's loads / dumps calls (worker.install_call_variants)
 EXHAUSTIVE = {}
 ASSUMPTIONS = ['decimal typed elements (one generated configuration in five): the plain fixed-point sub-domain is modelled (a Decimal is carried by its text, model/Dec.v); exponent forms, NaN / Infinity, underscores and non-ASCII digits are Unmodelled, as are non-canonical date strings (skipped by the comparer)',
                'DE43_* entries are compared with the regex model (pattern translated from the configuration on every run)']
